@@ -557,6 +557,8 @@ pub struct BindRequest<'data> {
     payload: BindPayload<'data>,
     /// Place to respond to the bind request
     tx_msg_tx: mpsc::UnboundedSender<Message>,
+    /// Whether a reply has been sent
+    replied: AtomicBool,
 }
 
 impl BindRequest<'_> {
@@ -590,6 +592,7 @@ impl BindRequest<'_> {
     /// - Returns [`Error::Closed`] if the `Multiplexor` is already closed.
     #[tracing::instrument(skip(self), level = "debug")]
     pub fn reply(&self, accepted: bool) -> Result<()> {
+        self.replied.store(true, Ordering::Relaxed);
         if accepted {
             self.tx_msg_tx.send(Frame::new_finish(self.flow_id).into())
         } else {
@@ -612,8 +615,10 @@ impl BindRequest<'_> {
 }
 
 impl Drop for BindRequest<'_> {
-    /// Dropping a `BindRequest` will reject the request
+    /// Dropping a `BindRequest` will reject the request unless it was answered
     fn drop(&mut self) {
-        self.reply(false).ok();
+        if !self.replied.load(Ordering::Relaxed) {
+            self.reply(false).ok();
+        }
     }
 }
